@@ -160,6 +160,61 @@ theorem darMsg_follows_table (r : DAR) (m : Bytes) (h : darMsg r = .ok m) (sig :
     · cases h
   · cases h
 
+/-! ### EdgeLock v2 response: payload of the signed message (`MessageDat`) -/
+
+/-- `MessageDat.export_payload()`: the first 32 bytes of the challenge vector ‖ authentication beacon on two bytes
+    (`int.to_bytes(2)`: OverflowError above 65535) -/
+def datPayload (challenge : Bytes) (beacon : Nat) : PyRes Bytes :=
+  if beacon < 65536 then .ok (challenge.take 32 ++ leEnc 2 beacon) else .error .other
+
+/-- `MessageDat.parse_payload()` -/
+def datPayloadParse (d : Bytes) : Bytes × Nat := (d.take 32, leDec ((d.drop 32).take 2))
+
+/-- the payload written field by field from a layout table -/
+def datFieldBytes (challenge : Bytes) (beacon : Nat) : DatFld × DatArg → Bytes
+  | (.bytes (.fixed n), .dacChallenge) => challenge.take n
+  | (.u16, .authBeacon) => leEnc 2 beacon
+  | _ => []
+
+theorem order_datmsg :
+    DatConsts.datMsgExport = [(.bytes (.fixed 32), .dacChallenge), (.u16, .authBeacon)] ∧
+    DatConsts.datMsgParse = DatConsts.datMsgExport ∧ DatConsts.datMsgPayloadLen = 34 := by decide
+
+theorem datPayload_follows_table (ch : Bytes) (b : Nat) (p : Bytes) (h : datPayload ch b = .ok p) :
+    p = DatConsts.datMsgExport.flatMap (datFieldBytes ch b) := by
+  unfold datPayload at h
+  split at h
+  · injection h with h; subst h; simp [DatConsts.datMsgExport, datFieldBytes]
+  · cases h
+
+theorem datPayload_roundtrip (ch : Bytes) (b : Nat) (hc : ch.length = 32) (hb : b < 65536) :
+    ∃ p, datPayload ch b = .ok p ∧ p.length = DatConsts.datMsgPayloadLen ∧ ∀ t, datPayloadParse (p ++ t) = (ch, b) := by
+  have ht : ch.take 32 = ch := by rw [← hc]; exact List.take_length
+  refine ⟨ch ++ leEnc 2 b, by simp [datPayload, hb, ht], by simp [leEnc_length, hc, DatConsts.datMsgPayloadLen], ?_⟩
+  intro t
+  have h1 : (ch ++ leEnc 2 b ++ t).take 32 = ch := by rw [List.append_assoc, List.take_left' hc]
+  have h2 : (ch ++ leEnc 2 b ++ t).drop 32 = leEnc 2 b ++ t := by rw [List.append_assoc, List.drop_left' hc]
+  simp only [datPayloadParse, h1, h2, List.take_left' (leEnc_length 2 b), leDec_leEnc2 b hb]
+
+theorem datPayload_inj (c₁ c₂ : Bytes) (b₁ b₂ : Nat) (h₁ : c₁.length = 32) (h₂ : c₂.length = 32) (p : Bytes)
+    (e₁ : datPayload c₁ b₁ = .ok p) (e₂ : datPayload c₂ b₂ = .ok p) : c₁ = c₂ ∧ b₁ = b₂ := by
+  have hb₁ : b₁ < 65536 := by
+    unfold datPayload at e₁; split at e₁
+    · assumption
+    · cases e₁
+  have hb₂ : b₂ < 65536 := by
+    unfold datPayload at e₂; split at e₂
+    · assumption
+    · cases e₂
+  obtain ⟨p₁, q₁, _, r₁⟩ := datPayload_roundtrip c₁ b₁ h₁ hb₁
+  obtain ⟨p₂, q₂, _, r₂⟩ := datPayload_roundtrip c₂ b₂ h₂ hb₂
+  have e1 : p₁ = p := Except.ok.inj (q₁.symm.trans e₁)
+  have e2 : p₂ = p := Except.ok.inj (q₂.symm.trans e₂)
+  subst e1
+  subst e2
+  have := (r₁ []).symm.trans (r₂ [])
+  exact ⟨congrArg Prod.fst this, congrArg Prod.snd this⟩
+
 /-! ### DAC -/
 theorem order_dac :
     argsOf DatConsts.dacExport = argsOf DatConsts.dacParseLayout ∧ (argsOf DatConsts.dacExport).Nodup ∧
